@@ -679,6 +679,67 @@ func scriptedAgentScenarios(o *out, prop string) {
 		emitHistory(o, prop, "overlapping-collects-after-mass-collect", s.calls)
 		})
 	}
+	// (e) Close called from the handler of the first of several timeouts of one Collect (the mutex is free
+	// then): the other timeouts of that Collect are still delivered, nothing is left without its event
+	for _, k := range []int{2, 3, 7} {
+		k := k
+		bounded("close-from-timeout-handler", func() {
+			s, g := newScenario()
+			fired := false
+			s.script = func(s *scenario, g *gstate, ev agentEv) {
+				if ev.kind == 2 && !fired {
+					fired = true
+					s.doCall(g, []int{6})
+				}
+			}
+			for id := 1; id <= k; id++ {
+				s.doCall(g, []int{1, id, 1})
+			}
+			s.doCall(g, []int{1, 50, 100}) // not expired: closed by the Close
+			for _, op := range [][]int{{4, 5}, {1, 60, 9}, {6}} {
+				s.doCall(g, op)
+			}
+			s.gs.Delete(goid())
+			emitHistory(o, prop, fmt.Sprintf("close-from-timeout-handler k=%d", k), s.calls)
+		})
+	}
+	// (f) while Close is delivering its events (a handler that takes its time), another goroutine starts a new
+	// transaction and stops a pending one: the agent is closed for them
+	for rep := 0; rep < 4; rep++ {
+		bounded("calls-during-close-delivery", func() {
+			s, g := newScenario()
+			for id := 1; id <= 3; id++ {
+				s.doCall(g, []int{1, id, 100})
+			}
+			hold := make(chan struct{})
+			var once sync.Once
+			s.script = func(s *scenario, g *gstate, ev agentEv) {
+				if ev.kind == 3 {
+					once.Do(func() { close(hold) })
+					time.Sleep(20 * time.Millisecond)
+				}
+			}
+			done := make(chan struct{})
+			go func() {
+				g2 := &gstate{tid: 1, r: newRng(3)}
+				s.gs.Store(goid(), g2)
+				<-hold
+				s.doCall(g2, []int{1, 77, 100})
+				s.doCall(g2, []int{2, 3, 0})
+				s.doCall(g2, []int{3, 2, 0x0101})
+				s.gs.Delete(goid())
+				close(done)
+			}()
+			s.doCall(g, []int{6})
+			select {
+			case <-done:
+			case <-time.After(5 * time.Second):
+			}
+			s.doCall(g, []int{6})
+			s.gs.Delete(goid())
+			emitHistory(o, prop, "calls-during-close-delivery", s.calls)
+		})
+	}
 	// (d) the handler of a transaction's terminal event (a response, a stop, a timeout) registers the same ID
 	// again: the transaction is already gone, so that Start succeeds and the new transaction stays
 	for _, term := range [][]int{{3, 1, 0x0101}, {2, 1, 0}, {2, 1, 7}, {4, 5}} {
